@@ -253,6 +253,25 @@ FamAutoComp ==
       inp \in {<<>>, <<1>>}, al \in {<<>>, <<1>>, <<0, 2>>}, aa \in BOOLEAN,
       d \in {<<>>, <<<<1, 2, "FS">>>>, <<<<2, 1, "SS">>>>, <<<<1, 3, "FF">>>>} }
 
+\* ---- FamNest2: an assembly with two parts ---------------------------------------------------
+\* component 1 is the parent of components 2 and 3; the parts are worked on at workplace 1 (two
+\* facilities), the assembly at workplace 2 (or at either); the parts leave workplace 1 with the
+\* assembly
+FamNest2 ==
+  { Cfg("nest2", 1,
+        << Task(w[1], 0, FALSE, 1, TRUE, 2, <<1>>, <<1>>, 0),
+           Task(w[2], 0, FALSE, 1, TRUE, 3, <<1>>, <<1>>, 1),
+           Task(w[3], 0, FALSE, 1, TRUE, 1, <<1>>, l3, 2) >>,
+        d, 1,
+        << Worker(1, <<1, 1, 1>>, <<1, 1, 1>>, 1, FALSE, <<>>, 0), Worker(1, <<1, 1, 1>>, <<1, 1, 1>>, 1, FALSE, <<>>, 0),
+           Worker(1, <<1, 1, 1>>, <<1, 1, 1>>, 1, FALSE, <<>>, 0) >>,
+        << Facility(1, <<1, 1, 1>>, 1, FALSE, <<>>), Facility(1, <<1, 1, 1>>, 1, FALSE, <<>>), Facility(2, <<1, 1, 1>>, 1, FALSE, <<>>) >>,
+        << [cap |-> cap1, inputs |-> <<>>], [cap |-> 8, inputs |-> inp] >>,
+        << [space |-> 2, children |-> <<2, 3>>], [space |-> sp, children |-> <<>>], [space |-> sp, children |-> <<>>] >>,
+        Opt(<<>>, FALSE, "TSLACK", 14))
+    : w \in [1..3 -> {2, 3}], l3 \in {<<2>>, <<2, 1>>, <<1, 2>>}, cap1 \in {4, 8}, sp \in {1, 2}, inp \in {<<>>, <<1>>},
+      d \in {<<<<1, 3, "FS">>, <<2, 3, "FS">>>>, <<<<1, 3, "FS">>>>, <<<<1, 3, "SS">>, <<2, 3, "FS">>>>, <<>>} }
+
 \* ---- FamDag: a component with two parents ----------------------------------------------------
 FamDag ==
   { Cfg("dag", 1,
@@ -466,6 +485,7 @@ Family(name, tier) ==
                                        {FixOff, FixOn(<<>>), FixOn(<<2>>), FixOn(<<1>>), FixOn(<<2, 1>>)},
                                        {FixOff, FixOn(<<>>), FixOn(<<3>>), FixOn(<<1, 2>>)}, {<<1, 1, 1>>, <<2, 1, 1>>, <<1, 1, 2>>},
                                        {<<1, 1>>, <<1, 0>>, <<0, 1>>}, {<<>>, <<1>>, <<0, 2>>})
+    [] name = "nest2"  -> FamNest2
     [] name = "autocomp" -> FamAutoComp
     [] name = "half"   -> FamHalf
     [] name = "mainwp" -> FamMainWp
